@@ -104,6 +104,7 @@ class non_terminal_leaves(FnSpec):
     file, qualname = "dds/structures_utils.py", "FunctionInteractionsUtils.non_terminal_leaves"
     variant = "below a prefix"
     filter_subsequence_axioms = True
+    prefer_solver = "cvc5"
 
     def __init__(self):
         super().__init__()
